@@ -235,7 +235,10 @@ class PersLandscapeApprox(PersLandscape):
                 L[k][i] = W[i][k]
         # check if L is empty
         if not L.size:
-            L = np.array(["empty"])
+            # no bar spans two grid steps: the sampled landscape vanishes at every
+            # node, which is one depth of zeros (not a string placeholder that
+            # breaks arithmetic, norms and the transformer output)
+            L = np.zeros((1, self.num_steps))
             print("Bad choice of grid, values is empty")
         self.values = L
         self.max_depth = len(L)
